@@ -55,6 +55,12 @@ func VerifyPresignedV4Signature(root RootUserConfig, iam auth.IAMService, logger
 		ctx.Locals("account", account)
 
 		if utils.IsBigDataAction(ctx) {
+			// a presigned signature never depends on the body: verify it
+			// before the handler runs
+			err = utils.CheckPresignedSignature(ctx, authData, account.Secret, debug)
+			if err != nil {
+				return sendResponse(ctx, err, logger, mm)
+			}
 			wrapBodyReader(ctx, func(r io.Reader) io.Reader {
 				return utils.NewPresignedAuthReader(ctx, r, authData, account.Secret, debug)
 			})
